@@ -38,13 +38,13 @@ def qbytes_int_mm(activations: torch.Tensor, weights: torch.Tensor, output_scale
     out_features = weights.shape[0]
     # torch._int_mm works on transposed weights, i.e (in_features, out_features)
     weights = weights.t()
-    if activations.ndim == 2:
-        # torch._int_mm returns garbage on CPU when the rows of the activations overlap (expanded Tensor)
-        out_data = torch._int_mm(activations.contiguous(), weights)
-    else:
-        output_shape = activations.shape[:-1] + (out_features,)
-        out_data = torch._int_mm(activations.reshape(-1, in_features).contiguous(), weights)
-        out_data = out_data.view(output_shape)
+    output_shape = activations.shape[:-1] + (out_features,)
+    activations = activations.reshape(-1, in_features)
+    if activations.stride() != (in_features, 1):
+        # torch._int_mm relies on the strides of its first operand on CPU: it returns garbage when the rows
+        # overlap (expanded Tensor) or when a dimension of size one has an arbitrary stride (transposed vector)
+        activations = activations.clone(memory_format=torch.contiguous_format)
+    out_data = torch._int_mm(activations, weights).view(output_shape)
     # We must evaluate the output as float32 because the multiplication
     # of the int32 data by the scales might overflow
     fp32_output = out_data.to(torch.float32) * output_scales.t()
